@@ -164,6 +164,23 @@ def main(run):
         full0 = F.compact_fc_to_full_fc(ph.primitive, fcc0)
         lines.append("wf " + tl)
         meta.append(("wf", dict(cell=name, smat=smat.tolist()), None, None, None))
+        # get_nsym_list_and_s2pp itself: the model computes the tables from Primitive's arrays (mkTables) and
+        # evaluates the group certificate on them (theorem computed_tables_wf)
+        s2p_arr = np.array(ph.primitive.s2p_map, dtype=int)
+        lines.append("mktables %d %d %d %s %s %s" % (npa, ns, len(perms), " ".join(map(str, p2s)), " ".join(map(str, s2p_arr)), " ".join(map(str, perms.ravel()))))
+        meta.append(("mktables", dict(cell=name, smat=smat.tolist(), pmat=pm, perms=perms.tolist()), None, (s2pp, nsym), None))
+        if made % 5 == 0 and len(perms) > 1:
+            # malformed stream: a table of translations with one row missing -> some atom cannot reach its
+            # representative: the Python raises IndexError, the model says "not defined"
+            drop = int(nsym.max())
+            bad = np.delete(perms, drop, axis=0)
+            try:
+                F.get_nsym_list_and_s2pp(ph.primitive.s2p_map, ph.primitive.p2p_map, bad)
+                impl_err = "returns"
+            except (IndexError, KeyError) as e:
+                impl_err = "raises"
+            lines.append("mktables %d %d %d %s %s %s" % (npa, ns, len(bad), " ".join(map(str, p2s)), " ".join(map(str, s2p_arr)), " ".join(map(str, bad.ravel()))))
+            meta.append(("mktables-malformed", dict(cell=name, smat=smat.tolist(), pmat=pm, dropped_row=drop), None, impl_err, None))
         lines.append("compactsym %d %s %s" % (level, tl, _flat(fcc0)))
         meta.append(("compact-C", dict(cell=name, smat=smat.tolist(), pmat=pm, level=level, self_inverse=self_inv), fcc0, fcc, (npa, ns, 3, 3)))
         lines.append("transposec 0 %s %s" % (tl, _flat(fcc0)))
@@ -403,9 +420,33 @@ def main(run):
         if kind == "wf":
             run.count("wf-certificates", section="correspondence")
             if line != "true":
+                # a statement about the model's assumption, not about behaviour: the layout/symmetriser oracles
+                # above are the failing-input search
                 run.broke("correspondence", "table certificate CTables.wf = %s on the implementation's tables" % line, info)
-                run.violation("Primitive.atomic_permutations/get_nsym_list_and_s2pp", "tables-not-wellformed",
-                              "translation tables fail the well-formedness certificate", info)
+            continue
+        if kind == "mktables":
+            run.count("computed-tables (get_nsym_list_and_s2pp vs mkTables)", section="correspondence")
+            tk = line.split()
+            s2pp_i, nsym_i = impl
+            if tk[:2] != ["true", "true"]:
+                run.broke("correspondence", "Primitive's arrays fail the translation-group certificate / tables undefined in the model (%s)" % " ".join(tk[:2]), info)
+                continue
+            got = np.array([int(x) for x in tk[2:]])
+            n_ = len(s2pp_i)
+            # canonical comparison: the translation recorded for atom i is compared as a permutation of the atoms,
+            # not as a row number (theorem nsym_choice_immaterial: any matching row acts identically)
+            perms_i = np.array(info["perms"])
+            same_action = len(got) == 2 * n_ and all(0 <= a < len(perms_i) for a in nsym_i) and (perms_i[nsym_i] == perms_i[got[n_:]]).all()
+            if len(got) != 2 * n_ or (got[:n_] != s2pp_i).any() or not same_action:
+                run.broke("correspondence", "get_nsym_list_and_s2pp differs from the model's mkTables",
+                          dict(info=info, impl_s2pp=s2pp_i.tolist(), impl_nsym=nsym_i.tolist(), model=got.tolist()))
+            continue
+        if kind == "mktables-malformed":
+            run.count("computed-tables malformed stream", section="correspondence")
+            tk = line.split()
+            model_err = "returns" if (len(tk) > 1 and tk[1] == "true") else "raises"
+            if model_err != impl:
+                run.broke("correspondence", "get_nsym_list_and_s2pp %s on a table with a missing translation, the model %s" % (impl, model_err), info)
             continue
         model = _parse(line, shape)
         ncmp += 1
